@@ -99,12 +99,33 @@ def h_gmm_seed(E):
     E.cover('seed 0', s == 0)
     E.cover('seed > 0', s > 0)
     vals = N.array(pipeline.FILL_H)
-    with WarningLog():
-        kind, res = outcome(L.ncomp_from_gmm, vals, ncomp_max=2, min_sep=0, random_seed=s, rescale_0_to_x=100)
+    real_cls = None
+    if not shim() and getattr(L.GaussianMixture, '__module__', '').startswith('sklearn'):
+        # replay with the real scikit-learn: note what each real estimator is given
+        class Recording(L.GaussianMixture):
+            def fit(self, X, y=None):
+                stubs.CALLS.append(('gmm_init', self.n_components, self.covariance_type, self.random_state))
+                return super().fit(X, y)
+        real_cls, L.GaussianMixture = L.GaussianMixture, Recording
+    try:
+        with WarningLog():
+            kind, res = outcome(L.ncomp_from_gmm, vals, ncomp_max=2, min_sep=0, random_seed=s, rescale_0_to_x=100)
+    finally:
+        if real_cls is not None:
+            L.GaussianMixture = real_cls
     inits = [c for c in stubs.CALLS if c[0] == 'gmm_init']
     cl = [('ncomp_from_gmm returns', kind == 'ok'), ('mixture models were built', len(inits) >= 1)]
-    cl.append(('every mixture model gets the explicit seed', And([c[3] is not None and same_value(c[3], s) is not False and
-                                                                   (same_value(c[3], s)) for c in inits] or [True])))
+    fits = [c[2] for c in stubs.CALLS if c[0] == 'gmm_fit_rs']
+
+    def seeded_by(rs, fit):
+        # the seed itself, or a generator made from it that no fit has used yet (equally reproducible)
+        if getattr(rs, '_is_model_rs', False):
+            return fit is not None and fit[2] == 0 and fit[1] is not None and same_value(fit[1], s)
+        if hasattr(rs, 'get_state') and hasattr(rs, 'random_sample'):     # real generator, seen just before its fit
+            a_, b_ = rs.get_state(), type(rs)(int(s)).get_state()
+            return bool((a_[1] == b_[1]).all()) and a_[2:] == b_[2:]
+        return rs is not None and same_value(rs, s) is not False and same_value(rs, s)
+    cl.append(('every mixture model gets the explicit seed', And([seeded_by(c[3], f) for c, f in zip(inits, fits + [None] * len(inits))] or [True])))
     return cl
 
 
@@ -168,7 +189,7 @@ def h_layer_monitor(E, order):
     cl = pipeline.h_layer(E, order, 0, 100, 'C08')
     inits = [c for c in stubs.CALLS if c[0] == 'gmm_init']
     E.cover('mixture engaged', len(inits) > 0)
-    cl.append(('every mixture model built with a concrete random_state', all(isinstance(c[3], int) and not isinstance(c[3], bool) for c in inits)))
+    cl.append(('every mixture model built with a concrete random_state', all((isinstance(c[3], int) and not isinstance(c[3], bool)) or (getattr(c[3], '_is_model_rs', False) and isinstance(c[3].seed_value, int)) for c in inits)))
     cl.append(('no access to the global generator', list(N.random.log) == []))
     return cl
 
